@@ -484,4 +484,182 @@ Section ScanProofs.
     - apply NoDup_count_occ'; [exact Hnd|]. apply view_In, Hin.
     - apply count_occ_not_In. intros Hin. apply Hnin. apply (view_In o), Hin.
   Qed.
+
+  (* ---------------------------------------------------------------- *)
+  (* without the premise that every token fits: the scan is never      *)
+  (* silently incomplete                                               *)
+  (* ---------------------------------------------------------------- *)
+
+  (* what a scan over the remaining items [rest] may end in: all of [rest]
+     delivered; or an explicit failure (500) of the request for the page that
+     ends on an item whose token cannot be issued, everything before it
+     delivered; or (too little fuel) still going *)
+  Definition outcome_ok (rest : list N) (r : scan_result) : Prop :=
+    match r with
+    | Done ps => concat (map items ps) = rest /\ Forall page_ok ps
+    | OutOfFuel ps => True
+    | Failed e ps =>
+        status_of e = 500 /\ Forall page_ok ps /\
+        (forall p, In p ps -> next_page p <> None) /\
+        exists its' k' tail,
+          rest = concat (map items ps) ++ its' ++ k' :: tail /\
+          N.of_nat (length (its' ++ [k'])) <= eff /\
+          serialize (o, k') = Err e
+    end.
+
+  Lemma outcome_cons : forall p rest' r,
+    outcome_ok rest' r -> page_ok p -> next_page p <> None ->
+    outcome_ok (items p ++ rest') (cons_pages p r).
+  Proof using Type.
+    intros p rest' r H Hp Hn. destruct r as [ps|ps|e ps]; cbn [cons_pages outcome_ok] in *.
+    - destruct H as [Hc Hf]. cbn [map concat]. rewrite Hc. split; [reflexivity|].
+      constructor; assumption.
+    - exact I.
+    - destruct H as (Hs & Hf & Hnn & its' & k' & tail & Hr & Hl & He).
+      split; [exact Hs|]. split; [constructor; assumption|]. split.
+      { intros q [<-|Hq]; [exact Hn|apply Hnn, Hq]. }
+      exists its', k', tail. cbn [map concat]. rewrite Hr, <- app_assoc. auto.
+  Qed.
+
+  (* one page over the remaining items, whatever fits *)
+  Lemma results_page_rest_gen : forall rest,
+    match last_opt (takeN eff rest) with
+    | None => rest = [] /\
+              results_page (takeN eff rest) o (fun k o => (o, k)) =
+              Ok {| next_page := None; items := [] |}
+    | Some k' => exists its', takeN eff rest = its' ++ [k'] /\
+                 match serialize (o, k') with
+                 | Ok t => results_page (takeN eff rest) o (fun k o => (o, k)) =
+                           Ok {| next_page := Some t; items := takeN eff rest |}
+                 | Err e => results_page (takeN eff rest) o (fun k o => (o, k)) = Err e
+                 end
+    end.
+  Proof using lim_nonzero cfg_default cfg_max.
+    intros rest. unfold Pagination.results_page.
+    pose proof (last_opt_spec (takeN eff rest)) as Hl.
+    destruct (last_opt (takeN eff rest)) as [k'|].
+    - destruct Hl as [its' Hits]. exists its'. split; [exact Hits|].
+      destruct (serialize (o, k')); reflexivity.
+    - rewrite Hl. split; [|reflexivity].
+      apply (takeN_nil_inv rest eff eff_pos Hl).
+  Qed.
+
+  Lemma page_step : forall rest,
+    match results_page (takeN eff rest) o (fun k o => (o, k)) with
+    | Ok p =>
+        items p = takeN eff rest /\ page_ok p /\
+        match next_page p with
+        | None => rest = []
+        | Some t => exists its' k', takeN eff rest = its' ++ [k'] /\ serialize (o, k') = Ok t
+        end
+    | Err e =>
+        status_of e = 500 /\
+        exists its' k', takeN eff rest = its' ++ [k'] /\ serialize (o, k') = Err e
+    end.
+  Proof using lim_nonzero cfg_default cfg_max.
+    intros rest. pose proof (results_page_rest_gen rest) as H.
+    destruct (last_opt (takeN eff rest)) as [k'|].
+    - destruct H as (its' & Hits & H).
+      destruct (serialize (o, k')) as [t|e] eqn:Es; rewrite H.
+      + cbn [items next_page]. split; [reflexivity|]. split.
+        * unfold page_ok. cbn [items next_page]. split; [rewrite takeN_length; lia|].
+          split; [discriminate|]. intros E. rewrite E in Hits. destruct its'; discriminate.
+        * exists its', k'. auto.
+      + split; [eapply serialize_failure_500; eauto|]. exists its', k'. auto.
+    - destruct H as [-> ->]. cbn [items next_page takeN]. split; [reflexivity|].
+      split; [|reflexivity]. unfold page_ok. cbn [items next_page length]. split; [lia|tauto].
+  Qed.
+
+  Lemma scan_from_token_gen : forall fuel rest pre k t o0,
+    v = pre ++ k :: rest -> serialize (o, k) = Ok t ->
+    outcome_ok rest (scan fuel o0 lim (Some t)).
+  Proof using env_round_trip env_bytes coll_sorted lim_nonzero cfg_default cfg_max.
+    induction fuel as [|f IH]; intros rest pre k t o0 Hv Hs; [exact I|].
+    cbn [Pagination.scan Pagination.request].
+    rewrite (token_round_trip sel env_ser env_de env_round_trip env_bytes _ _ Hs).
+    cbn [Pagination.handler]. unfold page_items. fold v. fold eff.
+    rewrite (filter_after_split o v pre k rest v_sorted Hv).
+    pose proof (page_step rest) as Hp.
+    pose proof (take_drop rest eff) as Htd.
+    destruct (results_page (takeN eff rest) o (fun k0 o1 => (o1, k0))) as [p|e].
+    - destruct Hp as (Hi & Hok & Hn).
+      destruct (next_page p) as [t'|] eqn:En.
+      + destruct Hn as (its' & k' & Hits & Hs').
+        rewrite <- Htd, <- Hi.
+        apply outcome_cons; [|exact Hok|rewrite En; discriminate].
+        apply (IH (dropN eff rest) (pre ++ k :: its') k' t' o0); [|exact Hs'].
+        rewrite Hv. rewrite <- app_assoc. cbn [app]. f_equal. f_equal.
+        rewrite <- Htd at 1. rewrite Hits, <- app_assoc. reflexivity.
+      + cbn [outcome_ok map concat]. rewrite app_nil_r, Hi, Hn. cbn [takeN].
+        split; [reflexivity|]. constructor; [exact Hok|constructor].
+    - destruct Hp as (H5 & its' & k' & Hits & He).
+      cbn [outcome_ok map concat app]. split; [exact H5|]. split; [constructor|].
+      split; [intros q []|].
+      exists its', k', (dropN eff rest). split.
+      + rewrite <- Htd at 1. rewrite Hits, <- app_assoc. reflexivity.
+      + split; [|exact He]. rewrite <- Hits, takeN_length. lia.
+  Qed.
+
+  Lemma full_scan_gen : forall fuel, outcome_ok v (full_scan fuel o lim).
+  Proof using env_round_trip env_bytes coll_sorted lim_nonzero cfg_default cfg_max.
+    intros [|f]; [exact I|]. unfold Pagination.full_scan.
+    cbn [Pagination.scan Pagination.request Pagination.handler].
+    unfold page_items. fold v. fold eff.
+    replace (filter (after o None) v) with v
+      by (symmetry; apply filter_all; reflexivity).
+    pose proof (page_step v) as Hp.
+    pose proof (take_drop v eff) as Htd.
+    destruct (results_page (takeN eff v) o (fun k0 o1 => (o1, k0))) as [p|e].
+    - destruct Hp as (Hi & Hok & Hn).
+      destruct (next_page p) as [t'|] eqn:En.
+      + destruct Hn as (its' & k' & Hits & Hs').
+        rewrite <- Htd at 1. rewrite <- Hi.
+        apply outcome_cons; [|exact Hok|rewrite En; discriminate].
+        apply (scan_from_token_gen f (dropN eff v) its' k' t' o); [|exact Hs'].
+        rewrite <- Htd at 1. rewrite Hits, <- app_assoc. reflexivity.
+      + cbn [outcome_ok map concat]. rewrite app_nil_r, Hi, Hn. cbn [takeN].
+        split; [reflexivity|]. constructor; [exact Hok|constructor].
+    - destruct Hp as (H5 & its' & k' & Hits & He).
+      cbn [outcome_ok map concat app]. split; [exact H5|]. split; [constructor|].
+      split; [intros q []|].
+      exists its', k', (dropN eff v). split.
+      + rewrite <- Htd at 1. rewrite Hits, <- app_assoc. reflexivity.
+      + split; [|exact He]. rewrite <- Hits, takeN_length. lia.
+  Qed.
+
+  (* Whatever the sizes of the tokens: a scan that ends (a page without
+     token) has delivered every item exactly once, in order — it is never
+     cut short silently. *)
+  Theorem scan_done_is_complete : forall fuel pages,
+    full_scan fuel o lim = Done pages ->
+    concat (map items pages) = view o coll /\
+    (forall p, In p pages ->
+       N.of_nat (length (items p)) <= page_limit lim max default /\
+       (next_page p = None <-> items p = [])).
+  Proof using env_round_trip env_bytes coll_sorted lim_nonzero cfg_default cfg_max.
+    intros fuel pages H. pose proof (full_scan_gen fuel) as Ho. rewrite H in Ho.
+    destruct Ho as [Hc Hf]. split; [exact Hc|].
+    rewrite Forall_forall in Hf. intros p Hp. apply (Hf p Hp).
+  Qed.
+
+  (* ... and the only other way it stops is an explicit 500 for the request
+     whose page would end on an item whose token cannot be issued; every
+     earlier page was delivered intact, with its token *)
+  Theorem scan_failure_is_explicit : forall fuel e pages,
+    full_scan fuel o lim = Failed e pages ->
+    status_of e = 500 /\
+    (forall p, In p pages ->
+       N.of_nat (length (items p)) <= page_limit lim max default /\
+       items p <> [] /\ next_page p <> None) /\
+    exists its' k' tail,
+      view o coll = concat (map items pages) ++ its' ++ k' :: tail /\
+      N.of_nat (length (its' ++ [k'])) <= page_limit lim max default /\
+      serialize (o, k') = Err e.
+  Proof using env_round_trip env_bytes coll_sorted lim_nonzero cfg_default cfg_max.
+    intros fuel e pages H. pose proof (full_scan_gen fuel) as Ho. rewrite H in Ho.
+    destruct Ho as (H5 & Hf & Hnn & Hex). split; [exact H5|]. split; [|exact Hex].
+    rewrite Forall_forall in Hf. intros p Hp. destruct (Hf p Hp) as [Hl Hiff].
+    split; [exact Hl|]. split; [|apply Hnn, Hp].
+    intros E. apply Hiff in E. exact (Hnn p Hp E).
+  Qed.
 End ScanProofs.
